@@ -104,6 +104,38 @@ func init() {
 		if err := json.Unmarshal(args, &a); err != nil {
 			return nil, err
 		}
+		return doValidate(&a)
+	})
+	// decorate {schema, schema2, …}: the same instances against a schema and its decorated version
+	register("decorate", func(args json.RawMessage) (any, error) {
+		var a validateArgs
+		if err := json.Unmarshal(args, &a); err != nil {
+			return nil, err
+		}
+		var extra struct {
+			Schema2 json.RawMessage `json:"schema2"`
+		}
+		if err := json.Unmarshal(args, &extra); err != nil {
+			return nil, err
+		}
+		ra, err := doValidate(&a)
+		if err != nil {
+			return nil, err
+		}
+		b := a
+		b.Schema = extra.Schema2
+		rb, err := doValidate(&b)
+		if err != nil {
+			return nil, err
+		}
+		return map[string]any{"outcome": "pair", "a": ra, "b": rb}, nil
+	})
+	registerRest()
+}
+
+func doValidate(ap *validateArgs) (any, error) {
+	{
+		a := *ap
 		u, uerr, herr := buildUniverse(&a)
 		if herr != nil {
 			return nil, herr
@@ -153,7 +185,10 @@ func init() {
 		}
 		return map[string]any{"outcome": "resolved", "verdicts": verdicts, "log": u.log, "draft": draft,
 			"targets": targets}, nil
-	})
+	}
+}
+
+func registerRest() {
 
 	// uri {base, ref}: net/url behaviour the package relies on
 	register("uri", func(args json.RawMessage) (any, error) {
